@@ -69,7 +69,8 @@ func (ex *Exec) qualifier(p *types.Package) string {
 	if ex.root.Pkg != nil && p == ex.root.Pkg.Pkg {
 		return ""
 	}
-	return p.Name()
+	// aliased: the package under test may declare an identifier with the imported package's name (kafka.metadata)
+	return "zzi_" + p.Name()
 }
 
 // buildPlan walks the root parameters in the entry state.
@@ -204,6 +205,23 @@ func (n *inputNode) goExpr(m *modelReader) (string, error) {
 		v, ok := m.num(n.Term, n.Typ)
 		if !ok {
 			return "", fmt.Errorf("no value for %s", n.GoType)
+		}
+		if n.Typ != nil && isInteger(n.Typ) {
+			// a value outside the type's range (range facts under quantifiers are not part of the VC): wrap it, so that the
+			// replay still builds; only what the real code does with the wrapped input counts
+			w := uint(intWidth(n.Typ))
+			mod := new(big.Int).Lsh(big.NewInt(1), w)
+			lo, hi := big.NewInt(0), new(big.Int).Sub(mod, big.NewInt(1))
+			if !isUnsigned(n.Typ) {
+				lo = new(big.Int).Neg(new(big.Int).Rsh(mod, 1))
+				hi = new(big.Int).Sub(new(big.Int).Rsh(mod, 1), big.NewInt(1))
+			}
+			if v.Cmp(lo) < 0 || v.Cmp(hi) > 0 {
+				v = new(big.Int).Mod(v, mod)
+				if v.Cmp(hi) > 0 {
+					v.Sub(v, mod)
+				}
+			}
 		}
 		return fmt.Sprintf("%s(%s)", n.GoType, v.String()), nil
 	case "bool":
@@ -374,13 +392,10 @@ func (ex *Exec) replayTest(vals []string) (string, error) {
 		imps = append(imps, p)
 	}
 	sort.Strings(imps)
-	for _, p := range imps {
-		name := p
-		if i := strings.LastIndex(p, "/"); i >= 0 {
-			name = p[i+1:]
-		}
-		if strings.Contains(body, name+".") {
-			fmt.Fprintf(&hd, "\t%q\n", p)
+	for _, pn := range imps {
+		p, name, _ := strings.Cut(pn, "\x00")
+		if strings.Contains(body, "zzi_"+name+".") {
+			fmt.Fprintf(&hd, "\tzzi_%s %q\n", name, p)
 		}
 	}
 	hd.WriteString(")\n\n")
@@ -391,7 +406,7 @@ func collectImports(t types.Type, self *types.Package, out map[string]bool) {
 	switch u := t.(type) {
 	case *types.Named:
 		if p := u.Obj().Pkg(); p != nil && p != self {
-			out[p.Path()] = true
+			out[p.Path()+"\x00"+p.Name()] = true
 		}
 	case *types.Pointer:
 		collectImports(u.Elem(), self, out)
